@@ -95,8 +95,10 @@ func observe(src string, code *py.Code) (obs string) {
 		}
 		_, err = ctxRun(ctx, code)
 		if err != nil {
-			t, _, _ := errInfo(err)
+			t, _, tb := errInfo(err)
 			res["exc"] = t
+			// the traceback (function, line) list is part of the observation: it is computed from the shared code object
+			res["exc"] = fmt.Sprintf("%s tb=%v", t, tb)
 		}
 	}()
 	o := cap.sb.String()
